@@ -301,6 +301,9 @@ func taintLeaves(l map[string]bool) []string {
 	for k := range l {
 		switch {
 		case strings.HasSuffix(k, ".Value") && strings.HasPrefix(k, "field:"),
+			// the namespace member of a reference (SecretObjectReference, BackendObjectReference,
+			// ParentReference…) is part of the referenced name, not the namespace of the object that declares it
+			strings.HasPrefix(k, "ftype:") && strings.HasSuffix(k, ".Namespace") && strings.Contains(k, "Reference"),
 			strings.HasPrefix(k, "call:strings.Split"),
 			strings.HasPrefix(k, "call:converters/ingress/utils.ParseURL"),
 			strings.HasPrefix(k, "call:strings.Cut"),
